@@ -177,6 +177,9 @@ func Extraction(gs *GrokStatic) map[string]fn {
 			return false, nil
 		}
 		for name, v := range caps {
+			if name == "_" {
+				name = "message" // the alias of the message key, as for every other key argument
+			}
 			switch v.(type) {
 			case nil, int64, float64, string, bool:
 				in.Pt.Set(name, v)
